@@ -247,3 +247,10 @@ def fixups(db, ctx):
                     if c.get("k") == "MethodCall" and c.get("method") == "parse_word_info" and len(c["args"]) > 1 and deref_all(c["args"][1]) is peel(n):
                         ok = True
     ctx.ob("get_word_info|drop-synonyms-if-absent", ok, "WordInfos::get_word_info removes SYNONYM_GROUP_ID when !has_synonym_group_ids: %s" % ok, fn=g)
+
+
+@rule("C11.split-subset", "the units of an A/B split are loaded with the subset the tokenizer holds, unchanged: their head_word_length (which places the "
+                          "unit boundaries) is stored only when the fields in front of it are requested (re-evaluation of C09.offsets|split|iterator-init)")
+def split_subset(db, ctx):
+    from . import C09
+    C09.offsets(db, ctx)
